@@ -383,8 +383,10 @@ pub fn exchange(ctx: &mut Ctx, cfg: &Xcfg) -> Xres {
                         }
                     }
                     let st = ilog::quiet(|| {
-                        // bounded: the child may legitimately still run (sleeping script); give it a moment, then kill
-                        for _ in 0..400 {
+                        // the child may legitimately still be busy (e.g. only its stdin was piped and its output goes to
+                        // /dev/null): let it finish its script, so that its report is complete; the bound is generous and
+                        // a child killed at the bound is reported as "not done" (its input is then not judged)
+                        for _ in 0..if cfg.kill_after { 1 } else { 30_000 } {
                             if let Some(s) = p.poll() {
                                 return Some(s);
                             }
